@@ -21,7 +21,7 @@ DESIGN_REF = "5/C17"
 TECHNIQUE = "property-based differential testing across workers, process counts, limits and schedules"
 WALL = {"quick": 120, "thorough": 1500}
 RULE = (
-    "cases = (workflow program from the C03 generator, list of 4-5 configurations drawn from "
+    "cases = (workflow program from the C03 generator, list of 3 (quick) or 4-5 (thorough) configurations drawn from "
     "{debug, cf n_procs in 1/2/8, sched with generated completion orders} x max_concurrent in "
     "{none,1,2}). Non-trivial = the program has >=3 jobs and at least two jobs that can run "
     "concurrently; distinct = (program, configurations)."
@@ -76,20 +76,25 @@ def check_case(case):
 
 
 @st.composite
-def configs(draw):
+def configs(draw, full=False):
+    """quick tier: debug + cf-or-sched + sched (3 runs per program); thorough: 4-5 runs"""
+    sched = lambda: dict(worker="sched", choices=draw(st.lists(st.integers(0, 7), max_size=30)),  # noqa: E731
+                         k=draw(st.sampled_from([None, None, 1, 2])))
+    cf = lambda: dict(worker="cf", n_procs=draw(st.sampled_from([1, 2, 8])),  # noqa: E731
+                      k=draw(st.sampled_from([None, 1, 2])))
     out = [dict(worker="debug", k=None)]
-    out.append(dict(worker="cf", n_procs=draw(st.sampled_from([1, 2, 8])), k=draw(st.sampled_from([None, 1, 2]))))
-    for _ in range(2):
-        out.append(dict(worker="sched", choices=draw(st.lists(st.integers(0, 7), max_size=30)),
-                        k=draw(st.sampled_from([None, None, 1, 2]))))
-    if draw(st.booleans()):
-        out.append(dict(worker="cf", n_procs=draw(st.sampled_from([1, 2, 8])), k=None))
+    if full:
+        out += [cf(), sched(), sched()]
+        if draw(st.booleans()):
+            out.append(cf())
+    else:
+        out += [cf() if draw(st.booleans()) else sched(), sched()]
     return out
 
 
 @st.composite
-def cases(draw):
-    return dict(prog=draw(G.programs(max_nodes=4)), configs=draw(configs()))
+def cases(draw, full=False):
+    return dict(prog=draw(G.mixed_programs(max_nodes=4)), configs=draw(configs(full)))
 
 
 def run(sh):
@@ -108,4 +113,4 @@ def run(sh):
         if case.pop("_timed_out", False):
             sh.count("inconclusive_timed_out")
 
-    sh.given(cases(), body, sh.budget(32, 700), tag="diff")
+    sh.given(cases(full=not sh.quick), body, sh.budget(48, 700), tag="diff")
